@@ -21,7 +21,9 @@ vars == <<cfg, nfits, scratch, cached, saved, loaded, steps>>
 
 Strategies == {"nmpfit", "scipy"}
 DataKinds == {"full", "subset"}
-Starts == {"truth", "nearby"}
+\* on_lower / on_upper: one parameter's starting value sits exactly on a bound of its prior (a guess
+\* clipped to the box), the generating value a few percent inside
+Starts == {"truth", "nearby", "on_lower", "on_upper"}
 Theories == {"mie", "mielens_fitted_angle"}
 Caches == {"hologram", "guess_hologram", "max_lnprob"}
 None == <<FALSE, {}>>
